@@ -480,6 +480,46 @@ def run_history(run: Run, stream, case, rows):
     return problem
 
 
+def empty_in_chain(run: Run, stream):
+    """text nodes with empty content inside a chain of adjacent text nodes: once the program has dropped its references
+    and a collection has coalesced the chain, the element's text is the concatenation of what was added. (Only the state
+    after the collection is examined: navigating across an empty text node in a chain is a recorded observation about the
+    unchanged library, DESIGN.md section 4.)"""
+    from delb import Document
+
+    rng = run.rng
+    for _ in range(40):
+        parts = [rng.choice(["a", "bc", "", "", " d "]) for _ in range(rng.randint(2, 5))]
+        if not parts[0]:
+            parts[0] = "h"
+        where = rng.choice(["data", "tail"])
+        case = {"empty_in_chain": parts, "where": where, "set_later": rng.random() < 0.4}
+        gc.collect()
+        doc = Document("<r><p>x<q/>t</p></r>")
+        root = doc.root
+        p = root[0]
+        anchor = p[0] if where == "data" else p[2]
+        if case["set_later"]:
+            added = anchor.add_following_siblings(*[s or "tmp" for s in parts])
+            for node, s in zip(added, parts):
+                if not s:
+                    node.content = ""
+            del added, node
+        else:
+            anchor.add_following_siblings(*parts)
+        del anchor, p
+        gc.collect()
+        gc.collect()
+        want = "<r><p>x" + ("".join(parts) if where == "data" else "") + "<q/>t" + ("".join(parts) if where == "tail" else "") + "</p></r>"
+        want = want.replace(" d ", " d ")
+        got = str(root)
+        run.case(stream, case, "" in parts)
+        run.count("empty text in chain", where)
+        if got != want:
+            run.violation(stream, case, {"why": "text is lost when a chain with an empty text node is coalesced", "got": got, "want": want})
+        del root, doc
+
+
 def compare_with_model(run: Run, rows):
     if not rows:
         return
@@ -643,6 +683,7 @@ def check(run: Run, lean: dict) -> int:
         run_history(run, "generated", gen_case(run.rng), rows)
     for c in micro_cases(run.rng, n // 3, MICRO_DOCS if run.tier == "quick" else MICRO_DOCS + E.DOCS):
         run_history(run, "single call, collections inside", c, rows)
+    empty_in_chain(run, "empty text in a chain")
     if ok:
         compare_with_model(run, rows)
     return run.finish(lean, LEVEL, ASSUME, search=search)
